@@ -32,7 +32,7 @@ def freeze_harness():
 
 
 def sh(cmd, cwd, timeout=1800):
-    p = subprocess.run(cmd, cwd=cwd, env=ENV, shell=True, stdout=subprocess.PIPE, stderr=subprocess.STDOUT, text=True, timeout=timeout)
+    p = subprocess.run(cmd, cwd=cwd, env=ENV, shell=True, stdout=subprocess.PIPE, stderr=subprocess.STDOUT, text=True, errors="replace", timeout=timeout)
     return p.returncode, p.stdout
 
 
@@ -175,7 +175,8 @@ def main():
     elif sys.argv[1] == "run":
         run(sys.argv[2], sys.argv[3] if len(sys.argv) > 3 else "quick")
     elif sys.argv[1] == "wrun":
-        run_in_worktree(sys.argv[2], sys.argv[3] if len(sys.argv) > 3 else "quick")
+        # optional 4th argument: run the check of another property against the change (cross-check)
+        run_in_worktree(sys.argv[2], sys.argv[3] if len(sys.argv) > 3 else "quick", sys.argv[4] if len(sys.argv) > 4 else None)
     elif sys.argv[1] == "matrix":
         freeze_harness()
         # every stored change x the given seeds, quick tier, in scratch worktrees, 4 at a time
